@@ -144,7 +144,8 @@ int read_amiga(const char *filename, Memory *memory)
         running = 0;
         break;
       default:
-        if (length == 0)
+        // A negative length would seek backwards and read the same hunks again.
+        if (length <= 0)
         {
           fclose(in);
           return -1;
